@@ -10,6 +10,7 @@ import (
 	"context"
 	"errors"
 
+	"github.com/notaryproject/notation-core-go/signature"
 	"github.com/notaryproject/notation-go"
 	"github.com/notaryproject/notation-go/verifier/trustpolicy"
 	ocispec "github.com/opencontainers/image-spec/specs-go/v1"
@@ -90,12 +91,20 @@ type mockRepo struct {
 	blobs     [][]byte
 	kinds     []kind
 	pages     []int
+	fetchErr  error // what an unfetchable signature fails with (nil: errMockFetch)
 	log       *callLog
 }
 
 func (m *mockRepo) Resolve(ctx context.Context, reference string) (ocispec.Descriptor, error) {
 	m.log.resolves = append(m.log.resolves, reference)
-	return m.resolved, nil
+	d := m.resolved
+	if d.Annotations != nil { // every caller gets its own map
+		d.Annotations = make(map[string]string, len(m.resolved.Annotations))
+		for k, v := range m.resolved.Annotations {
+			d.Annotations[k] = v
+		}
+	}
+	return d, nil
 }
 
 func (m *mockRepo) ListSignatures(ctx context.Context, desc ocispec.Descriptor, fn func([]ocispec.Descriptor) error) error {
@@ -129,6 +138,9 @@ func (m *mockRepo) FetchSignatureBlob(ctx context.Context, desc ocispec.Descript
 	ok := m.kinds[idx] != kUnfetchable
 	m.log.fetches = append(m.log.fetches, fetchEv{Sig: idx, DescOK: descEq(desc, m.manifests[idx]), OK: ok})
 	if !ok {
+		if m.fetchErr != nil {
+			return nil, ocispec.Descriptor{}, m.fetchErr
+		}
 		return nil, ocispec.Descriptor{}, errMockFetch
 	}
 	return m.blobs[idx], m.blobDescs[idx], nil
@@ -148,9 +160,11 @@ var (
 )
 
 type scriptedVerifier struct {
-	kinds []kind
-	blobs [][]byte
-	log   *callLog
+	kinds      []kind
+	blobs      [][]byte
+	invalidErr error                      // what an invalid signature is rejected with (nil: errScriptedInvalid)
+	content    *signature.EnvelopeContent // what a valid signature's outcome carries (nil: a bare outcome)
+	log        *callLog
 }
 
 func (v *scriptedVerifier) Verify(ctx context.Context, desc ocispec.Descriptor, sig []byte, opts notation.VerifierVerifyOptions) (*notation.VerificationOutcome, error) {
@@ -167,11 +181,15 @@ func (v *scriptedVerifier) Verify(ctx context.Context, desc ocispec.Descriptor, 
 	}
 	switch v.kinds[idx] {
 	case kValid:
-		return &notation.VerificationOutcome{RawSignature: sig, VerificationLevel: trustpolicy.LevelStrict}, nil
+		return &notation.VerificationOutcome{RawSignature: sig, VerificationLevel: trustpolicy.LevelStrict, EnvelopeContent: v.content}, nil
 	case kNilOutcome:
 		return nil, errScriptedNil
 	default:
-		return &notation.VerificationOutcome{RawSignature: sig, VerificationLevel: trustpolicy.LevelStrict, Error: errScriptedInvalid}, errScriptedInvalid
+		err := v.invalidErr
+		if err == nil {
+			err = errScriptedInvalid
+		}
+		return &notation.VerificationOutcome{RawSignature: sig, VerificationLevel: trustpolicy.LevelStrict, Error: err}, err
 	}
 }
 
